@@ -1,0 +1,38 @@
+//go:build verif
+
+package shrex
+
+// Contracts for the deductive verifier in /verif (govc). Comments only; build tag "verif".
+//
+// C09: the server's request handler. Ghost state:
+//   $Validated - the request ID passed its basic validation
+//   $AccOpen   - a block accessor was obtained from the store and has not been closed
+//   $MemHeld   - memory was reserved in the stream's resource scope and has not been released
+// The handler reaches the store only with a validated request and returns, on every path, with the
+// accessor closed and the reservation released.
+
+//@ extern (github.com/celestiaorg/celestia-node/share/shwap/p2p/shrex.request).Validate
+//@   effect $Validated := err == nil
+//@ extern (github.com/celestiaorg/celestia-node/store.AccessorGetter).GetByHeight
+//@   effect $AccOpen := $AccOpen || err == nil
+//@ extern (io.Closer).Close
+//@   effect $AccOpen := false
+//@ extern (github.com/libp2p/go-libp2p/core/network.ResourceScope).ReserveMemory
+//@   effect $MemHeld := $MemHeld || err == nil
+//@ extern (github.com/libp2p/go-libp2p/core/network.ResourceScope).ReleaseMemory
+//@   effect $MemHeld := false
+
+//@ func respondStatus
+//@   property C09
+//@   nopanic
+//@   requires status == shrexpb.Status_INTERNAL || status == shrexpb.Status_NOT_FOUND || status == shrexpb.Status_OK
+//@   ensures result0 == statusSendStatusErr || (status == shrexpb.Status_INTERNAL && result0 == statusInternalErr) || (status == shrexpb.Status_NOT_FOUND && result0 == statusNotFound) || (status == shrexpb.Status_OK && result0 == statusSuccess)
+
+//@ func (*Server).handleDataRequest
+//@   property C09
+//@   noframe
+//@   requires !$AccOpen && !$MemHeld && !$Validated
+//@   callpre AccessorGetter).GetByHeight: $Validated
+//@   callpre request).ResponseReader: $AccOpen && $MemHeld
+//@   ensures !$AccOpen && !$MemHeld
+//@   ensures result0 == statusBadRequest || result0 == statusReadReqErr ==> result1 == 0
